@@ -6,7 +6,10 @@ import threading
 
 
 class RecServer:
-    def __init__(self, first_id=0):
+    def __init__(self, first_id=0, fault=None):
+        """fault = {"nth": k, "kind": "drop" | "garbage" | "wrong_kind" | "reset"} applied to the k-th enqueue_task"""
+        self.fault = fault
+        self.enqueues = 0
         self.srv = socket.socket()
         self.srv.bind(("127.0.0.1", 0))
         self.srv.listen(16)
@@ -39,6 +42,23 @@ class RecServer:
                     self.log.append(msg)
                     k = msg.get("__kind__")
                     if k == "enqueue_task":
+                        self.enqueues += 1
+                        if self.fault and self.fault["nth"] == self.enqueues:
+                            kind = self.fault["kind"]
+                            self.log.append({"__fault__": kind, "name": msg.get("name")})
+                            if kind == "garbage":
+                                f.write(b"@@garbage@@\n")
+                                f.flush()
+                                continue
+                            if kind == "wrong_kind":
+                                f.write((json.dumps({"__kind__": "error", "message": "no"}) + "\n").encode())
+                                f.flush()
+                                continue
+                            if kind == "reset":
+                                import struct
+
+                                conn.setsockopt(socket.SOL_SOCKET, socket.SO_LINGER, struct.pack("ii", 1, 0))
+                            break  # drop / reset: the connection goes away without an answer
                         tid = self.next
                         self.next += 1
                         self.tasks[tid] = {"name": msg["name"], "deps": msg["deps"], "state": "SUBMITTED"}
@@ -52,6 +72,10 @@ class RecServer:
             except (OSError, ValueError):
                 pass
             finally:
+                try:
+                    f.close()
+                except OSError:
+                    pass
                 conn.close()
 
     def close(self):
